@@ -113,7 +113,15 @@ func (f *Faults) Check(site string) error {
 	return nil
 }
 
-func taskWithin(t, scope *sim.Task) bool { return sim.Descends(t, scope) }
+// taskWithin: t is the scope task or a helper goroutine it started - but not a
+// long-lived background worker (GC loop, outbox worker, heal scan) that merely
+// happens to have been started by the scope task when it booted a world.
+func taskWithin(t, scope *sim.Task) bool {
+	if !sim.Descends(t, scope) {
+		return false
+	}
+	return !sim.HasBackgroundAncestor(t, scope)
+}
 
 func class(site string) string {
 	if i := strings.IndexByte(site, ':'); i >= 0 {
